@@ -449,3 +449,33 @@ def rule_c16(prog: Program, col: Collector) -> None:
         ref2 = _method(prog, LIN, nm)
         rv2 = _single_return(fterms(prog, ref2), ref2)
         col.check(rv2 == ("attr", IN, nm), ref2.where(), ref2.short, f"{nm} delegates to the inner env", construct=f"lin-{nm}", necessity="")
+
+
+def rule_episode_state_reset(prog: Program, col: Collector) -> None:
+    """EP: every attribute an env writes outside its constructor is re-initialised by reset() (no state survives an episode)."""
+    _COL.append(col)
+    col.rule("EP", "every attribute written outside __init__ (per-episode state, caches) is assigned again in reset()", 2)
+    for cq in (GYM, LIN):
+        meths = prog.methods(cq)
+        reset = meths.get("reset")
+        if reset is None:
+            raise AnchorMissing(f"{cq}.reset not found")
+        written: dict[str, list] = {}
+        for name, m in meths.items():
+            if name == "__init__":
+                continue
+            ft = fterms(prog, m)
+            for e in list(ft.of_kind("store")) + list(ft.of_kind("aug")):
+                if e.obj == SELF and e.attr is not None:
+                    written.setdefault(e.attr, []).append((m, e))
+        in_reset = {e.attr for e in fterms(prog, reset).of_kind("store") if e.obj == SELF and e.attr is not None and not e.guards()}
+        # reset of the wrapper may delegate: attributes of the inner env are reset by the inner reset()
+        if not written:
+            col.ok(reset.where(), reset.short, "the class writes no attribute outside its constructor")
+        for attr, sites in sorted(written.items()):
+            m, e = sites[0]
+            col.check(attr in in_reset, m.where(e.node), m.short if attr in in_reset else reset.short,
+                      f"self.{attr} (written in {', '.join(sorted({x[0].node.name for x in sites}))}) is unconditionally re-assigned in reset()",
+                      construct=f"not-reset:{attr}",
+                      necessity="reset forgets everything but the minimal information: a counter, cache or saved array that survives reset leaks the previous episode "
+                                "(or the constructor-time game) into the observations, masks or rewards of the next one")
